@@ -22,6 +22,28 @@ import itertools
 
 RAW = False
 NOLUT = False
+LINEAR = False     # distribute GF(2)-linear tables over xor (used for syndrome computations)
+_linear_cache = {}
+
+
+def set_linear(v):
+    global LINEAR
+    LINEAR = bool(v)
+
+
+def _is_linear(tbl):
+    r = _linear_cache.get(id(tbl))
+    if r is None:
+        n = len(tbl)
+        r = tbl[0] == 0
+        if r:
+            for i in range(1, n):
+                low = i & -i
+                if i != low and tbl[i] != tbl[low] ^ tbl[i ^ low]:
+                    r = False
+                    break
+        _linear_cache[id(tbl)] = r
+    return r
 
 
 def set_raw(v):
@@ -67,6 +89,7 @@ VAR_RANGE = {}      # name -> exclusive upper bound assumed for the variable (en
 def reset():
     """Forget every term (used between independent jobs to bound memory)."""
     global _counter
+    _linear_cache.clear()
     _table.clear()
     _luts.clear()
     _vars.clear()
@@ -265,6 +288,11 @@ def lut(tbl, base, w):
         if bop == 'not':
             bm = _mask(base.w)
             return lut([tbl[bm & ~i] for i in range(n)], base.args[0], w)
+        if LINEAR and bop == 'xor':
+            tt = tbl if isinstance(tbl, tuple) else tuple(tbl)
+            tt = _intern_table(tt)
+            if _is_linear(tt):
+                return _ac('xor', w, [lut(tt, _u(x), w) if x.op != 'const' else tt[x.val] & m for x in base.args])
     allfeas = (base.k0 | base.k1) == 0
     if not RAW:
         if allfeas:
